@@ -405,6 +405,34 @@ def run_variants(case, ctx):
     raise_deferred(ctx, deferred)
 
 
+def enum_large(tier, seed):
+    sizes = [130, 300] if tier == "quick" else [65, 130, 257, 300, 1025]
+    for sa, sb in (("comb", "balanced"), ("star", "comb"), ("multiroot", "star"), ("balanced", "multiroot")):
+        for k in sizes:
+            for iam in (None, False):
+                yield dict(sa=sa, sb=sb, k=k, iam=iam)
+
+
+def run_large(case, ctx):
+    """Genotypes of hundreds of samples (more than 127 / 255 nodes per tree, many isolated samples)."""
+    import numpy as np
+    import tskit
+
+    from ._shapes import two_tree_spec
+
+    quiet()
+    k = case["k"]
+    spec = two_tree_spec(case["sa"], case["sb"], k, internal_samples=(k % 2 == 0))
+    ts = build(spec, tskit)
+    ctx.nt(True)
+    deferred = []
+    for samples in (None, list(range(0, k, 3))):
+        conf = dict(samples=samples, arr=False, iam=case["iam"], alleles=None, left=None, right=None, copy=None)
+        check_variants_conf(ctx, tskit, np, ts, spec, conf, deferred)
+        check_matrix_conf(ctx, tskit, np, ts, spec, conf)
+    raise_deferred(ctx, deferred)
+
+
 def check_variants_conf(ctx, tskit, np, ts, spec, conf, deferred):
     nodes = conf_nodes(spec, conf)
     iam = conf_iam(conf)
@@ -951,6 +979,8 @@ SUBCHECKS = [
              floors={"hap_ok": 0.2, "align_ok": 0.15, "align_error_expected": 0.1, "hap_error_expected": 0.1,
                      "fasta": 0.02, "align_window": 0.05, "hap_window_proper_subset": 0.03,
                      "hap_missing_char_used": 0.03}),
+    SubCheck("C03.large_shapes", run_large, enumerate=enum_large, quick=1, thorough=1,
+             rule="two-tree sequences over 130-300 (thorough: up to 1025) samples, all samples and every third sample"),
     SubCheck("C03.exhaustive_small", run_small, enumerate=enum_small, quick=1, thorough=1,
              rule="every forest on <=3 (quick) / <=4 (thorough) nodes x all sample flags x every admissible "
              "mutation list of length <=3; non-trivial = >=2 mutations or one of the classes above"),
